@@ -327,6 +327,37 @@ func c17Work(c *engine.Ctx) {
 	entAtoms := engine.Atoms("&", "#", "x", "X", ";", "0", "4", "1", "9", "a", "amp", "lt", "quot", "apos", "nbsp", "&amp;", "&#39;", "&#x41;", "&#0;", "varphi", "3", " ", "5", "m", "p", "&#35;", "&#59;", "&#120;", "&#49;", "&num;")
 	revs := []map[string]string{{"rev": "none"}, {"rev": "apos"}, {"rev": "both"}}
 	enum("entity", entAtoms, c.Pick(5, 6), revs)
+	// numeric references with many digits: the value must not wrap around to a small one
+	{
+		sp := c.SpaceByName("entity")
+		k := 0
+		var refs []string
+		for _, pre := range []string{"", "0", "00000000000000", "1", "8", "f", "10000000", "100000000", "1000000000000000", "8000000000000000", "ffffffffffffffff", "10000000000000000", "7fffffffffffff", "fffffffffffffff"} {
+			for _, suf := range []string{"41", "26", "3b", "80", "7f", "0", "d800", "10ffff", "110000", "270f", "2710"} {
+				refs = append(refs, "&#x"+pre+suf+";", "&#X"+pre+suf+";", "&#x"+pre+suf)
+			}
+		}
+		for _, pre := range []string{"", "0", "000000000000000000", "18446744073709551", "4294967", "9223372036854775", "922337203685477580"} {
+			for _, suf := range []string{"65", "38", "128", "127", "681", "0", "9999", "10000"} {
+				refs = append(refs, "&#"+pre+suf+";", "&#"+pre+suf)
+			}
+		}
+		for _, ref := range refs {
+			for _, before := range []string{"", "a", "&", "&#x", "&#"} {
+				for _, after := range []string{"", "a", ";", "1", "&amp;"} {
+					k++
+					if !c.Mine(k) {
+						continue
+					}
+					for _, a := range revs {
+						c.Exec(sp, []byte(before+ref+after), a)
+						c.Count("exec", 1)
+					}
+					c.Count("long_numeric_refs", 1)
+				}
+			}
+		}
+	}
 	enum("ws+entity", engine.Atoms("&", "#", ";", "3", "2", "9", "a", "amp", "&amp;", "&#32;", "&#10;", "&quot;", " ", "\n", "\t", "\r", "x"), c.Pick(5, 6), revs)
 	var hargs []map[string]string
 	for _, q := range []string{"", "'", "\""} {
@@ -352,7 +383,7 @@ func c17Finish(c *engine.Ctx, cov map[string]interface{}) string {
 func init() {
 	register(&engine.Check{
 		ID: "C17", Level: "exploration",
-		Rule:        "ReplaceMultipleWhitespace on all strings ≤8 over {space,\\t,\\n,\\r,\\f,a,b} vs a regexp reference; ReplaceEntities on all sequences ≤5 over 22 entity fragments × 3 reverse maps: never longer, idempotent, html.UnescapeString unchanged (NUL references excepted), result is a prefix of the argument; the combined function == ReplaceEntities∘ReplaceMultipleWhitespace on all sequences ≤5 over 17 fragments; html.EscapeAttrVal on all values ≤4 over 16 atoms × origQuote × mustQuote × 3 buffers and xml.EscapeAttrVal ≤5: read back through the lexer as one attribute whose value decodes to the same text, quoting policy, shortest quote; xml.EscapeCDATAVal on all strings ≤7 over {a < & ] > l t ;}",
+		Rule:        "ReplaceMultipleWhitespace on all strings ≤8 over {space,\\t,\\n,\\r,\\f,a,b} vs a regexp reference; ReplaceEntities on all sequences ≤5 over 22 entity fragments × 3 reverse maps: never longer, idempotent, html.UnescapeString unchanged (NUL references excepted), result is a prefix of the argument; the same on 600 numeric references of up to 25 digits (values at and beyond 2^32, 2^63 and 2^64) × 25 contexts; the combined function == ReplaceEntities∘ReplaceMultipleWhitespace on all sequences ≤5 over 17 fragments; html.EscapeAttrVal on all values ≤4 over 16 atoms × origQuote × mustQuote × 3 buffers and xml.EscapeAttrVal ≤5: read back through the lexer as one attribute whose value decodes to the same text, quoting policy, shortest quote; xml.EscapeCDATAVal on all strings ≤7 over {a < & ] > l t ;}",
 		Assumptions: []string{"entity maps are consistent with HTML (replacement decodes to the same text and is not longer)", "ReplaceMultipleWhitespaceAndEntities is compared with whitespace first, entities second"},
 		Setup:       c17Setup, Work: c17Work, Finish: c17Finish,
 	})
